@@ -11,7 +11,7 @@
 // Direct oracles (implementation only):
 //   c06-whole-vs-segmented  the same bytes fed in one piece give the same events/messages/error
 //   c08-panic               Parse recovered from a panic (log line)
-//   c08-retained            retained bytes > max(ReadLimit, len(data))
+//   c08-retained            retained bytes > max(ReadLimit, largest read of the connection so far)  (c08_retained_chain)
 //   c08-body                body held > MaxHTTPBodySize
 //   c08-after-error         events emitted by a Parse call that follows an error
 package main
@@ -40,6 +40,7 @@ func exec(e *lp.Exec) {
 	var allEvs, allMsgs []string
 	finalErr := 0
 	limitHit := false
+	maxSeg := 0 // largest read of the case so far
 	nontrivial := false
 	var key strings.Builder
 	finish := func() {
@@ -111,6 +112,7 @@ func exec(e *lp.Exec) {
 			lim, _ := strconv.Atoi(f[3])
 			s = hx.NewSess(cl == 1, mb, lim)
 			dead, segs, allEvs, allMsgs, finalErr, limitHit, nontrivial = false, nil, nil, nil, 0, false, false
+			maxSeg = 0
 			key.Reset()
 			fmt.Fprintf(&key, "%d/%v/%v|", cl, mb > 0, lim > 0)
 			lg.Panics = 0
@@ -118,7 +120,10 @@ func exec(e *lp.Exec) {
 			e.P("ok")
 			e.Count("cases", map[bool]string{true: "client", false: "server"}[cl == 1])
 		case "D":
-			seg := lp.Unhex(f[1])
+			var seg []byte // "-" = an empty read: Parse returns at once, before the ReadLimit test
+			if f[1] != "-" {
+				seg = lp.Unhex(f[1])
+			}
 			if dead {
 				// the engine glue has closed the parser (CloseAndClean on the first error); the transport may still
 				// deliver data: every further Parse must return net.ErrClosed without any callback
@@ -190,13 +195,18 @@ func exec(e *lp.Exec) {
 				continue
 			}
 			cl := s.P.VerifCacheLen()
+			if len(seg) > maxSeg {
+				maxSeg = len(seg)
+			}
 			if s.Limit > 0 {
+				// the trace-level bound (c08_retained_chain): a first read into an empty cache may be retained whole and
+				// stays until the next non-empty read trips the limit — an empty read in between does not
 				bound := s.Limit
-				if len(seg) > bound {
-					bound = len(seg)
+				if maxSeg > bound {
+					bound = maxSeg
 				}
 				if cl > bound {
-					e.Oracle("c08-retained", "cache=%d limit=%d data=%d", cl, s.Limit, len(seg))
+					e.Oracle("c08-retained", "cache=%d limit=%d largest read=%d", cl, s.Limit, maxSeg)
 				}
 			}
 			e.Count("parse_calls", "ok")
